@@ -981,3 +981,64 @@ def diff(roots, dtable):
             raise NotImplementedError("derivative of op %s" % op)
         memo[t.id] = d
     return [memo[r.id] for r in roots]
+
+
+class Inexact(Exception):
+    pass
+
+
+def eval_exact(roots, env):
+    """exact evaluation with Fractions (env: {name: Fraction}); None = undefined (division by zero, sqrt of a negative),
+    propagated with the three-valued and/or; raises Inexact for irrational sqrt / uninterpreted functions"""
+    memo = {}
+    for t in postorder(roots):
+        op = t.op
+        if op == "c":
+            v = t.args[0]
+        elif op == "v":
+            v = env[t.args[0]]
+        elif op == "true":
+            v = True
+        elif op == "false":
+            v = False
+        elif op == "pi":
+            raise Inexact("pi")
+        else:
+            a = [memo[x.id] if isinstance(x, T) else x for x in t.args]
+            if op == "and":
+                v = False if (a[0] is False or a[1] is False) else (None if (a[0] is None or a[1] is None) else True)
+            elif op == "or":
+                v = True if (a[0] is True or a[1] is True) else (None if (a[0] is None or a[1] is None) else False)
+            elif op == "ite":
+                v = None if a[0] is None else (a[1] if a[0] else a[2])
+            elif any(x is None for x in a):
+                v = None
+            elif op == "+":
+                v = a[0] + a[1]
+            elif op == "*":
+                v = a[0] * a[1]
+            elif op == "/":
+                v = None if a[1] == 0 else a[0] / a[1]
+            elif op == "neg":
+                v = -a[0]
+            elif op == "sqrt":
+                q = a[0]
+                if q < 0:
+                    v = None
+                else:
+                    rn, rd = math.isqrt(q.numerator), math.isqrt(q.denominator)
+                    if rn * rn != q.numerator or rd * rd != q.denominator:
+                        raise Inexact("sqrt")
+                    v = Fraction(rn, rd)
+            elif op == "<":
+                v = a[0] < a[1]
+            elif op == "<=":
+                v = a[0] <= a[1]
+            elif op == "==":
+                v = a[0] == a[1]
+            elif op == "not":
+                v = not a[0]
+            else:
+                raise Inexact(op)
+        memo[t.id] = v
+    return [memo[r.id] for r in roots]
